@@ -129,6 +129,65 @@ def regen():
     return json.loads(out.strip().splitlines()[-1])
 
 
+class Relevance:
+    """which generated definitions the theorems of one property depend on: the words of Props/<prop>.lean and of
+    every non-generated module it imports (transitively), closed under the references between generated
+    definitions.  Used to decide whether an untranslatable kernel / failed fact / crashed facts module is an
+    obligation of *this* property; when in doubt the answer is yes."""
+
+    def __init__(self, prop):
+        root = os.path.join(LEAN, "XrsVerif")
+        seen, todo, text, gen_imported = set(), [f"XrsVerif.Props.{prop}"], [], set()
+        while todo:
+            m = todo.pop()
+            if m in seen:
+                continue
+            seen.add(m)
+            path = os.path.join(LEAN, *m.split(".")) + ".lean"
+            try:
+                t = open(path).read()
+            except OSError:
+                continue
+            if m.startswith("XrsVerif.Gen."):
+                gen_imported.add(m.split(".")[-1] + ".lean")
+            else:
+                text.append(strip_comments(t))
+            todo += re.findall(r"^import\s+(XrsVerif\.[\w.]+)", t, flags=re.M)
+        self.gen_imported = gen_imported
+        # generated definitions: name -> (file, body)
+        self.defs = {}
+        gdir = os.path.join(root, "Gen")
+        for f in sorted(os.listdir(gdir)) if os.path.isdir(gdir) else []:
+            if not f.endswith(".lean"):
+                continue
+            t = strip_comments(open(os.path.join(gdir, f)).read())
+            parts = re.split(r"^(?=(?:def|abbrev|structure|inductive|instance|theorem)\s)", t, flags=re.M)
+            for part in parts:
+                mm = re.match(r"(?:def|abbrev|structure|inductive|instance|theorem)\s+([\w.']+)", part)
+                if mm:
+                    self.defs[mm.group(1).split(".")[-1]] = (f, part)
+        words = set(re.findall(r"[A-Za-z_][\w']*", "\n".join(text)))
+        reach, todo = set(), [w for w in words if w in self.defs]
+        while todo:
+            n = todo.pop()
+            if n in reach:
+                continue
+            reach.add(n)
+            body = self.defs[n][1]
+            todo += [w for w in set(re.findall(r"[A-Za-z_][\w']*", body)) if w in self.defs and w not in reach]
+        self.reach = reach
+        self.files_reached = {self.defs[n][0] for n in reach}
+
+    def item(self, key):
+        if key.startswith("facts:"):
+            f = key[len("facts:"):]
+            return f in self.files_reached or (f in self.gen_imported and not any(v[0] == f for v in self.defs.values()))
+        return key in self.reach or key not in self.defs   # unknown name: be conservative
+
+    def module_files(self, files):
+        return (not files) or any(f in self.files_reached or f in self.gen_imported for f in files)
+
+
 def lake_build(targets):
     """returns (ok, log).  A failing build is a broken proof obligation, not an infra error --
     unless the toolchain itself is missing."""
@@ -277,8 +336,16 @@ class Runner:
         """regen + build + audit.  Fills self.obligations / self.broken."""
         regen_info = regen()
         self.extra["translator"] = regen_info
-        if regen_info.get("untranslatable"):
-            self.broken.append("translator: untranslatable " + ",".join(regen_info["untranslatable"]))
+        # only what this property's theorems (transitively) mention is an obligation of this property
+        rel = Relevance(self.prop)
+        unt = [u for u in regen_info.get("untranslatable", []) if rel.item(u)]
+        if unt:
+            self.broken.append("translator: untranslatable " + ",".join(unt))
+        for mname, info in (regen_info.get("crashed") or {}).items():
+            if rel.module_files(info.get("files") or []):
+                self.broken.append(f"translator: {mname} crashed on the current source ({info.get('error')}); "
+                                   f"its generated files {info.get('files')} are stale")
+        self.extra["translator_not_relevant_here"] = [u for u in regen_info.get("untranslatable", []) if u not in unt]
         targets = [f"XrsVerif.Props.{self.prop}", "driver"] + list(extra_targets)
         ok, log = lake_build(targets)
         self.extra["build_ok"] = ok
